@@ -9,6 +9,7 @@ func init() {
 	generators["xxh"] = genXXH
 	generators["dec"] = genDec
 	generators["cmp"] = genCmp
+	generators["decguard"] = genDecGuard
 }
 
 // ---------- XXH ----------
@@ -107,7 +108,11 @@ func genBlock(r *Rng) (src []byte, decoded int, dictLen int) {
 			break
 		}
 		var off int
-		switch r.Intn(7) {
+		sel := r.Intn(7)
+		if sel == 2 && r.Intn(3) != 0 {
+			sel = 6 // mostly valid offsets: the error paths are still reached, less often
+		}
+		switch sel {
 		case 0:
 			off = r.Pick(offClasses)
 		case 1:
@@ -134,7 +139,7 @@ func genBlock(r *Rng) (src []byte, decoded int, dictLen int) {
 		}
 		di += ml + 4
 	}
-	switch r.Intn(10) {
+	switch r.Intn(16) {
 	case 0:
 		if len(src) > 1 {
 			src = src[:r.Intn(len(src))+1]
@@ -163,7 +168,7 @@ func genDec(w *bufio.Writer, thorough bool, r *Rng) {
 		} else {
 			src, dec, dictLen = genBlock(r)
 		}
-		dl := dec + r.Pick([]int{0, 0, 0, -1, -2, -3, 1, 2, 5, 15, 16, 17, 31, 32, 33, 40, 48, 49, 100})
+		dl := dec + r.Pick([]int{0, 0, 0, 0, 0, -1, -2, -3, 1, 1, 2, 5, 15, 16, 17, 31, 32, 33, 40, 48, 49, 100})
 		if dl < 0 {
 			dl = 0
 		}
@@ -346,5 +351,28 @@ func genCmp(w *bufio.Writer, thorough bool, r *Rng) {
 		} else {
 			fmt.Fprintf(w, "CH obj %d %d %s\n", r.Pick([]int{1, 2, 256, 512}), pickDl(r, len(src)), hx(src))
 		}
+	}
+}
+
+// genDecGuard: the decoder cases again, with every buffer flush against an unmapped page
+func genDecGuard(w *bufio.Writer, thorough bool, r *Rng) {
+	n := 4000
+	if thorough {
+		n = 100000
+	}
+	for i := 0; i < n; i++ {
+		var src []byte
+		var dec, dictLen int
+		if r.Intn(12) == 0 {
+			src = r.Bytes(1 + r.Intn(60))
+			dec = r.Intn(100)
+		} else {
+			src, dec, dictLen = genBlock(r)
+		}
+		dl := dec + r.Pick([]int{0, 0, 0, -1, -2, -3, 1, 2, 5, 15, 16, 17, 31, 32, 33, 40, 48, 49, 100})
+		if dl < 0 {
+			dl = 0
+		}
+		fmt.Fprintf(w, "DP %d %d %s %s\n", dl, r.Intn(200), hx(r.Bytes(dictLen)), hx(src))
 	}
 }
